@@ -16,5 +16,11 @@ def handle (fn : String) (args : List Json) : String :=
   | "get_gender" => match args with
     | [a0] => (do let x0 ← Wire.decStr a0; pure (Wire.respondWith Wire.encStr (Gen.it_codicefiscale.get_gender x0)) : Option String).getD "badargs"
     | _ => "badargs"
+  | "is_valid" => match args with
+    | [a0] => (do let x0 ← Wire.decStr a0; pure (Wire.respondWith Wire.encBool (Gen.it_codicefiscale.is_valid x0)) : Option String).getD "badargs"
+    | _ => "badargs"
+  | "validate" => match args with
+    | [a0] => (do let x0 ← Wire.decStr a0; pure (Wire.respondWith Wire.encStr (Gen.it_codicefiscale.validate x0)) : Option String).getD "badargs"
+    | _ => "badargs"
   | _ => "nofunc"
 end Driver.D_it_codicefiscale
